@@ -570,7 +570,8 @@ func StdTemplate(id string) *corev1.PodTemplateSpec {
 		// (node name added to EVERY term) are exercised wherever C is used
 		req := corev1.NodeSelectorRequirement{Key: FitLabelPrefix + id, Operator: corev1.NodeSelectorOpIn, Values: []string{"yes"}}
 		return &corev1.PodTemplateSpec{
-			ObjectMeta: metav1.ObjectMeta{Labels: map[string]string{"app": "agent"}},
+			// the templates differ in their metadata too (a config checksum annotation, a revision label), not only in the pod spec
+			ObjectMeta: metav1.ObjectMeta{Labels: map[string]string{"app": "agent", "rev": id}, Annotations: map[string]string{"checksum/config": "cfg-" + id}},
 			Spec: corev1.PodSpec{
 				Affinity: &corev1.Affinity{NodeAffinity: &corev1.NodeAffinity{RequiredDuringSchedulingIgnoredDuringExecution: &corev1.NodeSelector{
 					NodeSelectorTerms: []corev1.NodeSelectorTerm{
@@ -583,7 +584,7 @@ func StdTemplate(id string) *corev1.PodTemplateSpec {
 		}
 	}
 	return &corev1.PodTemplateSpec{
-		ObjectMeta: metav1.ObjectMeta{Labels: map[string]string{"app": "agent"}},
+		ObjectMeta: metav1.ObjectMeta{Labels: map[string]string{"app": "agent", "rev": id}, Annotations: map[string]string{"checksum/config": "cfg-" + id}},
 		Spec: corev1.PodSpec{
 			NodeSelector: map[string]string{FitLabelPrefix + id: "yes"},
 			Containers:   []corev1.Container{{Name: MainContainer, Image: "img:" + id}, {Name: SideContainer, Image: "side:" + id}},
